@@ -1,7 +1,7 @@
 use crate::{
     ActError, Error, Message, Result, Workflow,
     data::{self, MessageStatus},
-    scheduler::{self, Node, Runtime, StatementBatch, TaskLifeCycle, TaskState},
+    scheduler::{self, Node, Runtime, StatementBatch, StoredNode, TaskLifeCycle, TaskState},
     store::{Store, query::*},
     utils::{self, Id},
 };
@@ -232,9 +232,30 @@ impl Store {
         let tree = &proc.tree();
         let query = Query::new().push(Cond::and().push(Expr::eq("pid", proc.id())));
         let tasks = collection.query(&query)?;
+
+        // nodes built at run time are described in the row of the task that built them:
+        // bring them back, outermost first, before the tasks are bound to their nodes
+        let mut dynamic: HashMap<String, Arc<Node>> = HashMap::new();
+        let mut builders = tasks
+            .rows
+            .iter()
+            .filter_map(|t| serde_json::from_str::<StoredNode>(&t.node_data).ok())
+            .filter(|d| !d.nodes.is_empty())
+            .collect::<Vec<_>>();
+        builders.sort_by_key(|d| d.level);
+        for d in builders {
+            if let Some(node) = tree.node(&d.id).or_else(|| dynamic.get(&d.id).cloned()) {
+                let mut found = Vec::new();
+                node.restore_nodes(&d.nodes, &mut found);
+                for n in found {
+                    dynamic.insert(n.id().to_string(), n);
+                }
+            }
+        }
+
         for t in tasks.rows {
             let state: TaskState = t.state.into();
-            let node = Node::from_str(&t.node_data, tree);
+            let node = Node::from_str_with(&t.node_data, tree, &dynamic);
             let mut task = scheduler::Task::new(proc, &t.tid, node, rt);
             task.set_pure_state(state.clone());
             task.set_start_time(t.start_time);
